@@ -20,6 +20,7 @@ type Spec struct {
 	NoEmptyList  bool
 	NoEmptyMap   bool
 	ListMin      int
+	StrMin       int
 }
 
 type Lazy struct {
@@ -123,7 +124,7 @@ func (x *Exec) force(lz *Lazy) Iface {
 		lz.SizeOK = true
 		r = Iface{T: x.eng.listType, V: Slice{A: a, Len: n, Cap: n}}
 	case 's':
-		s := x.symString(0, lz.Spec.StrMax, lz.Spec.StrAlpha, "str")
+		s := x.symString(lz.Spec.StrMin, lz.Spec.StrMax, lz.Spec.StrAlpha, "str")
 		lz.S = s
 		r = Iface{T: x.eng.stringType, V: s}
 	case 'f':
